@@ -977,6 +977,13 @@ def monOp1 (m : Mon) (op : String) (args : List String) (impl : List String) (tr
         let v :=
           if outs.any fun o => (answers o).isEmpty then
             "bad C14:reply-on-the-connection-not-authenticated-under-the-secret-of-the-first-matching-client-block"
+          else
+          -- C10: a request that was answered on this connection and comes again right behind, octet for octet, gets exactly the same
+          -- reply octets again
+          let repeatUnanswered := (List.range frames.length).any fun i =>
+            i ≥ 1 && frames[i]? == frames[i - 1]? && (match firstBad with | some b => i < b | none => true) &&
+            outs.any fun o => (answers o).contains (i - 1) && (outs.filter (· == o)).length < 2
+          if repeatUnanswered then "bad C10:retransmission-of-an-answered-request-on-the-connection-did-not-get-the-same-reply-again"
           else match firstBad with
             | some b => if outs.any fun o => (answers o).all (· > b) then "bad C05:request-behind-one-that-must-close-the-connection-was-answered" else "ok"
             | none => "ok"
